@@ -1,10 +1,61 @@
 (* C04: the notion of legality the direct oracle uses, tied to the proved bit-level model.
    CASE P ; <position> | <live> <sorted legal move set>   model: GameOver.game_over, GameOver.all_moves filtered by Inst.mv_fixed
    CASE M ; <position> ; <move> | OK|ERR|PANIC            every move a player returned, judged by Inst.mv_fixed
-   SPEC column: a live position whose model move set is empty would contradict theorem C04_live_has_legal_move. *)
+   SPEC column: a live position whose model move set is empty would contradict theorem C04_live_has_legal_move.
+   CASE BOOK ; <size> ; <lines: x<hex>,... or -> ; <dump 0|1> ; <Int31 script v0,v1,... or -> ; <G|P position> ; ...
+        | <OK | ERR kind lno x<hex word> | PANIC> <move>/<ok>/<next draw> ...      | n=<entries> <hash>@<position>@<move>*<weight>+.../...
+     model: Opening.build_book (coq/Opening.v) on the raw line bytes, then OpeningBook.GetMove (G) / OpeningPlayer.GetMove with the
+     harness's stub inner player (P) on every query in order, the draws chained through one scripted source; L2 = the whole book,
+     entries sorted by hash, children in append order. *)
 (* verif:needs c04m *)
 open Common
+open BinNums
+open Datatypes
 let is_ok p m = match Inst.mv_fixed p m with Move.Ok _ -> true | _ -> false
+
+let unhex (s : string) : coq_N list =
+  (* "x" followed by two hex digits per byte *)
+  let n = (S.length s - 1) / 2 in
+  L.init n (fun i -> n_of_int (int_of_string ("0x" ^ S.sub s (1 + 2 * i) 2)))
+let hex (bs : coq_N list) : string = "x" ^ S.concat "" (L.map (fun b -> Printf.sprintf "%02x" (int_of_n b)) bs)
+
+let book_case size lines flag vals qs =
+  let sz = z_of_string size in
+  let lines = if lines = "-" then [] else L.map unhex (S.split_on_char ',' lines) in
+  let vs = if vals = "-" then [] else L.map z_of_string (S.split_on_char ',' vals) in
+  match OpeningInst.build sz lines with
+  | Opening.BPanic -> ("PANIC", None, None)
+  | Opening.BErr (k, lno, w) -> (Printf.sprintf "ERR %s %d %s" (string_of_n k) (int_of_nat lno) (hex w), None, None)
+  | Opening.BOk b ->
+    let rnd = OpeningInst.script_rnd vs in
+    let idx = ref O in
+    let broken = ref false in
+    let answer q =
+      if !broken then "-" else
+      let kind = S.sub q 0 1 in
+      let p = parse_pos (S.sub q 2 (S.length q - 2)) in
+      if kind = "G" then
+        (match Opening.book_get_move b p rnd !idx with
+         | Move.Ok ((m, ok), j) -> idx := j; Printf.sprintf "%s/%d/%d" (enc_move m) (if ok then 1 else 0) (int_of_nat j)
+         | Move.Err -> broken := true; "ERR"
+         | Move.Panic -> broken := true; "PANIC")
+      else
+        (match Opening.opening_player_get_move b OpeningInst.stub_inner p rnd !idx with
+         | Move.Ok (m, j) -> idx := j; Printf.sprintf "%s/%d" (enc_move m) (int_of_nat j)
+         | Move.Err -> broken := true; "ERR"
+         | Move.Panic -> broken := true; "PANIC") in
+    let ans = L.map answer qs in
+    let l1 = S.concat " " ("OK" :: ans) in
+    let l2 =
+      if flag <> "1" then None else begin
+        let es = L.sort (fun a c -> Int64.unsigned_compare (i64_of_n a.Opening.be_hash) (i64_of_n c.Opening.be_hash)) b in
+        let ent e =
+          Printf.sprintf "%s@%s@%s" (string_of_n e.Opening.be_hash) (enc e.Opening.be_pos)
+            (S.concat "+" (L.map (fun c -> enc_move c.Opening.ch_move ^ "*" ^ string_of_z c.Opening.ch_weight) e.Opening.be_moves)) in
+        Some (S.trim (Printf.sprintf "n=%d %s" (L.length es) (S.concat "/" (L.map ent es))))
+      end in
+    (l1, l2, None)
+
 let run (_args : string list) =
   run_cases (fun fs ->
     match L.map S.trim (S.split_on_char ';' (L.hd fs)) with
@@ -21,4 +72,5 @@ let run (_args : string list) =
       let m = parse_move mv in
       ((match Inst.mv_fixed p m with Move.Ok _ -> "OK" | Move.Err -> "ERR" | Move.Panic -> "PANIC"), None, None)
     | "MCTS" :: rest -> Drv_c04m.handle rest
+    | "BOOK" :: size :: lines :: flag :: vals :: qs -> book_case size lines flag vals qs
     | _ -> failwith "c04 input")
